@@ -1137,7 +1137,8 @@ DP_ALGOS = ("thl", "base_spfs", "ext_spfs", "base_uspfs", "superdtl")
 def _full_costs(c):
     d = {"spe": 0, "dup": 1, "hgt": 1, "floss": 1, "sloss": 1}
     d.update(c.get("costs") or {})
-    return d
+    # cost options are Python expressions on the command line ("10**7+1", "1/3", "float('inf')"): as numbers here
+    return {k: (eval(v, {"__builtins__": {"float": float}}) if isinstance(v, str) else v) for k, v in d.items()}  # noqa: S307 - literals written by gen_cli_case
 
 
 def known_signature(f, kf):
